@@ -79,12 +79,16 @@ fn market_of(m: &Value) -> MarketEvent<InstrumentIndex, DataKind> {
     let kind = if k == "lt" {
         DataKind::Trade(PublicTrade { id: "m".into(), price: v as f64, amount: 1.0, side: Side::Buy })
     } else {
-        // connectors set last_update_time = time_exchange
-        DataKind::OrderBookL1(OrderBookL1 {
-            last_update_time: time(t),
-            best_bid: Some(Level::new(dec(v), dec(1))),
-            best_ask: Some(Level::new(dec(v + 1), dec(1))),
-        })
+        // connectors set last_update_time = time_exchange.  The value names the book's shape as well:
+        // 6 = bid only, 7 = ask only, 8 = no side at all, anything else = bid v / ask v+1.  A newer
+        // one-sided or empty top of book is still the newest top of book.
+        let (best_bid, best_ask) = match v {
+            6 => (Some(Level::new(dec(6), dec(1))), None),
+            7 => (None, Some(Level::new(dec(7), dec(1)))),
+            8 => (None, None),
+            _ => (Some(Level::new(dec(v), dec(1))), Some(Level::new(dec(v + 1), dec(1)))),
+        };
+        DataKind::OrderBookL1(OrderBookL1 { last_update_time: time(t), best_bid, best_ask })
     };
     let arrived = ARRIVAL.fetch_add(1, std::sync::atomic::Ordering::Relaxed);
     MarketEvent { time_exchange: time(t), time_received: time(arrived), exchange: world2::EXCHANGES[world2::EX_OF[inst]], instrument: InstrumentIndex(inst), kind }
@@ -142,10 +146,15 @@ fn project(st: &world2::State) -> Value {
             },
             "l1" => {
                 let l1 = &st.instruments.instrument_index(&InstrumentIndex(n)).data.l1;
-                match &l1.best_bid {
-                    None => none(),
-                    Some(bid) => json!({"has": true, "t": untime(l1.last_update_time),
-                                        "v": if l1.best_ask.as_ref().map(|a| a.price) == Some(bid.price + Decimal::ONE) { int_or_str(bid.price) } else { json!("torn") }}),
+                let shaped = |v: Value| json!({"has": true, "t": untime(l1.last_update_time), "v": v});
+                let special = |p: Decimal| [dec(6), dec(7), dec(8)].contains(&p);
+                match (&l1.best_bid, &l1.best_ask) {
+                    // the default top of book carries the epoch; delivered ones carry a positive time
+                    (None, None) if untime(l1.last_update_time) <= 0 => none(),
+                    (None, None) => shaped(json!(8)),
+                    (Some(bid), None) => shaped(if bid.price == dec(6) { json!(6) } else { json!("torn") }),
+                    (None, Some(ask)) => shaped(if ask.price == dec(7) { json!(7) } else { json!("torn") }),
+                    (Some(bid), Some(ask)) => shaped(if ask.price == bid.price + Decimal::ONE && !special(bid.price) { int_or_str(bid.price) } else { json!("torn") }),
                 }
             }
             "lt" => match &st.instruments.instrument_index(&InstrumentIndex(n)).data.last_traded_price {
